@@ -2,7 +2,7 @@ CONSTANTS
   Waiters = {1, 2, 3}
   Start = 14
   Mod = 16
-  Signed = FALSE
+  Signed = TRUE
   MaxOps = 0
   Defects = {}
 SPECIFICATION TraceSpec
